@@ -161,6 +161,19 @@ def string_cases(tier, seed, want, tag, sizing=False, hostile=False,
             k += 1
             if want(k) and ok(m):
                 yield k, {'s': m, 'w': 'fault:' + kind}
+    # whitespace injected before one opening brace/bracket of a document
+    # (reaches `\end {x}`, `\begin {x}`, `\item [x]`, `{verbatim}` ...)
+    for j in range(int((60 if q else 3000) * scale)):
+        rng = _r.Random('%d/%d/%s/w' % (seed, j, tag))
+        src, _ = docgen.gen_doc(rng, cfg_general(j, 'quick'))
+        src = src[:400]
+        spots = [i for i, c in enumerate(src) if c in '{[']
+        for i in (spots if len(spots) <= 24 else rng.sample(spots, 24)):
+            k += 1
+            if want(k):
+                m = src[:i] + rng.choice([' ', '\n', '\t', ' \n ', '  ']) + src[i:]
+                if ok(m):
+                    yield k, {'s': m, 'w': 'ws-before-opener'}
     for j in range(int((2500 if q else 80000) * scale)):
         k += 1
         if want(k):
